@@ -11,6 +11,12 @@
             | err=nil,<tail>                          (T.Close)
             | ret=nil|true,<tail>                     (T.Flush / T.Open / T.IsOpen)
     apx drem none|<n>                                 => <uint64>   (defaultTransport.RemainingBytes)
+    apx dtr none|<n> <m>                              => rem=<uint64> wrapped=<bool>
+        NewDefaultTransport of an io.ReadWriter that has the whole TTransport method set itself
+        (own RemainingBytes() = m) and, unless `none`, ReadableLen() = n; wrapped = the result is not the argument
+    apx dbt <hexinit> <hexw>                          => rem=<uint64> inner=<uint64> len=<n> wrapped=<bool>
+        t := NewDefaultTransport(NewBufferTransport(bytes.NewBuffer(init))); t.Write(w);
+        rem = t.RemainingBytes(), inner = the buffer transport's, len = the buffer's Len
     apx never                                         => err=notreg-check;err=notreg-read;err=notreg-write
                                                          | skipped   (a Register* call happened before)
     apx cb <c>/<r>/<w> <call>,<call>,…                => <res>;<res>;…
@@ -189,6 +195,26 @@ def stepLine (ever : Bool) (args : List String) (impl : String) : Bool × String
         | none => 18446744073709551615
       (ever, toString (remainingDefault rl), if impl == toString want then "ok" else "bad:C19:remaining-default")
     | none => (ever, "bad-op", "na")
+  | ["apx", "dtr", n, m] =>
+    let rl : Option (Option Int) := if n == "none" then some none else n.toInt?.map some
+    match rl, m.toNat? with
+    | some rl, some m =>
+      let rw := RW.other rl (some m)
+      let want : Nat := match rl with
+        | some n => if n > 0 then n.toNat else 18446744073709551615
+        | none => 18446744073709551615
+      (ever, s!"rem={newDefaultRemaining rw} wrapped={newDefaultWraps rw}",
+        if field (impl.splitOn " ") "rem" == some (toString want) then "ok" else "bad:C19:remaining-default")
+    | _, _ => (ever, "bad-op", "na")
+  | ["apx", "dbt", h, w] =>
+    match parseHex h, parseHex w with
+    | some init, some w =>
+      let s := ((Buf.new init).write w).1
+      let rw := RW.bufferTransport s
+      (ever, s!"rem={newDefaultRemaining rw} inner={remainingBytes s} len={s.len} wrapped={newDefaultWraps rw}",
+        -- a *bufferTransport exposes no ReadableLen: the generic transport must say "unknown"
+        if field (impl.splitOn " ") "rem" == some "18446744073709551615" then "ok" else "bad:C19:remaining-default")
+    | _, _ => (ever, "bad-op", "na")
   | ["apx", "never"] =>
     if ever then (ever, "skipped", "na")
     else
